@@ -1103,7 +1103,13 @@ def _l_insert(it, args, kwargs):
         items.insert(conc(i), x)
         lst.seq = PyList(items)
         return None
-    raise Unsupported("insert into symbolic list")
+    s = unstructure(s)
+    n = zint(s.len)
+    zi = zint(i)
+    pos = z3.If(zi < 0, z3.If(zi + n < 0, 0, zi + n), z3.If(zi > n, n, zi))
+    xv = x if (is_z3(x) and x.sort() == s.sort) else (to_v(it, x) if s.sort == V else zint(x))
+    lst.seq = Seq(conc(n + 1), lambda j, s=s: z3.If(j < pos, s.at(j), z3.If(j == pos, xv, s.at(j - 1))), s.sort)
+    return None
 
 
 def _l_pop(it, args, kwargs):
@@ -1250,6 +1256,9 @@ def _isinstance(it, args, kwargs):
 
 def _unknown_isinstance(it, x, name):
     f = z3.Function(f"isinstance_{name}", V, BOOL)
+    if name in ("list", "tuple", "int", "str", "bool", "float"):
+        # a dict instance is never an instance of these (incompatible layouts / distinct builtins)
+        return z3.And(z3.Not(is_dict(x)), x != NONE, f(x))
     return f(x)
 
 
